@@ -150,6 +150,9 @@ static void judge(const uint8_t* seq, size_t depth, int innermost, bool distinct
     again = cbor_load(in, n, &r2);
     if (again) J.walked = vf_walk(again);
   }
+  if ((levels == L_CFG || levels == L_CFG + 1) && (vf_cnt_get_local(VC_EVAL) & 0xff) == 7)
+    vf_sample("L=%zu: %zu levels (outermost opener %s, innermost %s) -> %s%s, native stack %zu bytes", L_CFG, levels, ONAME[seq[0]], innermost ? "chunked string" : "integer", J.accepted ? "accepted" : "rejected with code ",
+              J.accepted ? "" : (J.code == 4 ? "MEMERROR" : "?"), used);
   if (levels == L_CFG) vf_cnt(K_AT_LIMIT, 1);
   if (levels == L_CFG + 1) vf_cnt(K_OVER_LIMIT, 1);
   if (levels >= 4 * L_CFG) vf_cnt(K_DEEP4L, 1);
